@@ -1,9 +1,13 @@
 #!/bin/bash
 # seed_test.sh <seed-dir-name> <Cxx> [tier]: apply a seeded change to /repo, run a check, undo the change.
+# The evidence file of the check is saved and restored (evidence must come from runs on the unchanged tree).
 S=$1; C=$2; T=${3:-quick}
 cd /repo && git diff --quiet || { echo "/repo dirty"; exit 2; }
+[ -f /verif/evidence/$C.json ] && cp /verif/evidence/$C.json /var/tmp/evidence_$C.keep
 git -C /repo apply /verif/seeded/$S/patch.diff || exit 2
 cd /verif && timeout ${SEED_TIMEOUT:-1500} ./check $C --tier $T > /tmp/seedtest_${S}_$C.log 2>&1; RC=$?
 git -C /repo checkout -- .
-echo "seed=$S check=$C exit=$RC"; grep -E "^VIOLATION|^KNOWN|^HARNESS|^\[C" /tmp/seedtest_${S}_$C.log | head -6
-grep -A1 "^VIOLATION" /tmp/seedtest_${S}_$C.log | grep -v "^VIOLATION" | head -2
+[ -f /var/tmp/evidence_$C.keep ] && mv /var/tmp/evidence_$C.keep /verif/evidence/$C.json
+rm -rf /verif/replays
+echo "seed=$S check=$C exit=$RC"; grep -E "^VIOLATION|^HARNESS|^\[C" /tmp/seedtest_${S}_$C.log | head -4
+grep -A1 "^VIOLATION" /tmp/seedtest_${S}_$C.log | grep -v "^VIOLATION" | head -1 | cut -c1-300
